@@ -432,6 +432,10 @@ def adversarial_addr(rng, peers=(1, 2, 3)):
         "ip4.99/tcp.99",
         f"{host}/tcp.{n}/p2p.0",
         f"p2p.{p}/{host}/tcp.{n}/p2p.{q}",
+        # a host component the transports refuse although it looks like a DNS name
+        f"dnsaddr.{n}/tcp.{n}/p2p.{p}",
+        f"dnsaddr.{n}/tcp.{n}/p2p.{p}",
+        f"dnsaddr.{n}/p2p.{p}",
     ]
     return rng.choice(shapes)
 
